@@ -1235,7 +1235,7 @@ def part_b(ck, S, g, exe_rel, exe_fuzz):
     site = plan[i % len(plan)]
     # a rejection with a semantic message cannot be attributed to the injected violation (the reader may have stopped at
     # something else first): such a site gets up to two more base documents
-    for attempt in range(3):
+    for attempt in range(1 if site.kind in BIG_KINDS else 3):
       if one_pair(i, site, (seed + 104729 * attempt) % (2 ** 32)) != 'rejected-by-semantic':
         break
       stats['retries_after_semantic_rejection'] += 1
